@@ -70,3 +70,16 @@ Definition run_0801 (input impl : sx) : sx :=
     end
   | _ => v_malformed
   end.
+
+(* kind 0802: supporting test outside the model (data races / the Go memory model are not
+   modelled): the C08 generator run in a harness built with the race detector.
+   impl = (built races cases child_ok info).  Specification: if the -race build exists, the run
+   completed and the detector reported nothing. *)
+Definition run_0802 (input impl : sx) : sx :=
+  match impl with
+  | SL [SN built; SN races; SN cases; SN childok; SB info] =>
+      let ok := N.eqb built 0 || (N.eqb races 0 && negb (N.eqb childok 0)) in
+      verdict (SL [SN built; SN 0; SN cases; SN (if N.eqb built 0 then childok else 1); SB info])%N impl ok
+              (SL [SN races])
+  | _ => v_malformed
+  end.
